@@ -473,13 +473,13 @@ sf_open_virtual	(SF_VIRTUAL_IO *sfvirtual, int mode, SF_INFO *sfinfo, void *user
 {	SF_PRIVATE 	*psf ;
 
 	/* Make sure we have a valid set of virtual pointers. */
-	if (sfvirtual->get_filelen == NULL)
+	if (sfvirtual == NULL || sfvirtual->get_filelen == NULL)
 	{	sf_errno = SFE_BAD_VIRTUAL_IO ;
 		snprintf (sf_parselog, sizeof (sf_parselog), "Bad vio_get_filelen in SF_VIRTUAL_IO struct.\n") ;
 		return NULL ;
 		} ;
 
-	if ((sfvirtual->seek == NULL || sfvirtual->tell == NULL) && sfinfo->seekable)
+	if ((sfvirtual->seek == NULL || sfvirtual->tell == NULL) && sfinfo != NULL && sfinfo->seekable)
 	{	sf_errno = SFE_BAD_VIRTUAL_IO ;
 		snprintf (sf_parselog, sizeof (sf_parselog), "Bad vio_seek / vio_tell in SF_VIRTUAL_IO struct.\n") ;
 		return NULL ;
